@@ -241,6 +241,55 @@ def O3(F, rep, R, FL):
     rep.ob('O3', 'open|guards', ok and npaths > 0, rep.fn_site(R.open_fn),
            'open(): both thread pairs are started only after the already-open guard and the open-failed guard (%d starting paths)' % npaths,
            nontrivial=True)
+    # a session that is opened gets its workers: every completing path that enters the read or the write branch starts both threads (or
+    # closes the file again).  A return in between leaves an open File whose read() waits for an end of stream nobody will declare
+    rep.count('O3')
+    bad_start = None
+    nmode = 0
+    for evs, out in FL.paths(R.open_fn, follow=()):
+        if out not in ('normal', 'return'):
+            continue
+        m = [R._mode_of_cond(e['n']) for e in evs if e['ev'] == 'branch' and e['taken'] and R._mode_of_cond(e['n'])]
+        if not m:
+            continue
+        nmode += 1
+        starts = [e for e in evs if e['ev'] == 'call' and (e['n'].get('cls') or '').startswith('std::thread') and
+                  (e['n'].get('k') == 'Construct' and e['n'].get('args') or e['n'].get('op') == '=')]
+        nthreads = len([e for e in evs if e['ev'] == 'call' and e['n'].get('k') == 'Construct' and (e['n'].get('cls') or '').startswith('std::thread') and e['n'].get('args')])
+        closed = any(e['ev'] == 'call' and e['n'].get('fn') == 'close' and recv_root(e['n']) == 'm_compressedFile' for e in evs)
+        if nthreads < 2 and not closed:
+            bad_start = evs
+            break
+    rep.ob('O3', 'open|workers-started', bad_start is None and nmode > 0, rep.fn_site(R.open_fn),
+           'open(): every completing path through the read or the write branch starts both workers (%d paths)' % nmode if bad_start is None and nmode > 0 else
+           'open() can return with the file open but without its workers (%s): read() then waits for an end of stream that nobody declares' %
+           (fmt_events(bad_start, limit=14) if bad_start else 'no path'), nontrivial=True)
+    # an open() that starts no session (the File is open already, or the file could not be opened) leaves the pipeline as it was: whatever
+    # it does to a stage (declare an end, abort, resize) is still there when a later open() on the same File succeeds
+    rep.count('O3')
+    bad_fx = None
+    nidle = 0
+    for evs, out in FL.paths(R.open_fn, follow=()):
+        if out != 'return':
+            continue    # (falling off the end with neither in nor out requested is outside the documented use)
+        if [1 for e in evs if e['ev'] == 'branch' and e['taken'] and R._mode_of_cond(e['n'])]:
+            continue
+        if any(e['ev'] == 'call' and (e['n'].get('cls') or '').startswith('std::thread') for e in evs):
+            continue
+        nidle += 1
+        for e in evs:
+            if e['ev'] == 'call' and e['n'].get('ck') == 'member' and recv_root(e['n']) in R.stages and recv_root(e['n']) != 'm_compressedFile' and \
+                    e['n'].get('cconst') is False:
+                bad_fx = ('calls %s.%s() (line %s)' % (recv_root(e['n']), e['n'].get('fn'), e.get('l')), evs)
+            if e['ev'] == 'assign' and _assign_target(e['n']) and F.field(FILE, _assign_target(e['n'])) is not None and \
+                    (member_path(e['n'].get('lhs') or (e['n'].get('args') or [None])[0]) or ('$',))[0] in (_assign_target(e['n']),):
+                bad_fx = ('assigns %s (line %s)' % (_assign_target(e['n']), e.get('l')), evs)
+        if bad_fx:
+            break
+    rep.ob('O3', 'open|no-session-no-effect', bad_fx is None and nidle > 0, rep.fn_site(R.open_fn),
+           'open(): the paths that start no session leave the stages and the File members untouched (%d paths)' % nidle if bad_fx is None and nidle > 0 else
+           'open() %s on a path that starts no session (%s): the change is still in effect when a later open() on this File succeeds' %
+           (bad_fx[0], fmt_events(bad_fx[1], limit=10)) if bad_fx else 'open(): no idle path found', nontrivial=True)
     # the mode close() dispatches on is recorded only once the session really starts: behind both guards of open()
     rep.count('O3')
     bad = None
@@ -849,6 +898,22 @@ def H2(F, rep, R, FL):
         rp = idx(lambda e: e['ev'] == 'assign' and _stat_target(e['n']) == 'restorePointsOffset')
         if proc and (rp is None or rp > min(proc)):
             bad = ('restorePointsOffset is not taken before the restore-point container is written', evs)
+            break
+        # the offset is a position of the compressed file taken as it is (no arithmetic on it), and it designates a container that this very
+        # close() goes on to write
+        rps = [e for e in evs if e['ev'] == 'assign' and _stat_target(e['n']) == 'restorePointsOffset']
+        for e in rps:
+            n_ = e['n']
+            plain = (n_.get('k') == 'Bin' and n_.get('op') == '=') or (n_.get('k') == 'Call' and n_.get('op') == '=')
+            from_tellp = any(x.get('k') == 'Call' and x.get('fn') == 'tellp' and recv_root(x) == 'm_compressedFile' for x in walk(rs(evs.index(e))))
+            if not (plain and from_tellp):
+                bad = ('restorePointsOffset is changed by something other than a plain assignment of m_compressedFile.tellp() (line %s)' % e.get('l'), evs)
+                break
+        if bad:
+            break
+        if rps and not proc:
+            bad = ('restorePointsOffset is set, but no container is written behind it on this path (the offset then points at, or into, a container '
+                   'the compression thread wrote earlier)', evs)
             break
     rep.ob('H2', 'close|write', bad is None and n > 0, rep.fn_site(close),
            'close() [write]: after both joins and the restore-point pass, fileSize := tellp(), uncompressedFileSize / objectCount := the running counters, '
@@ -1801,6 +1866,27 @@ def R2(F, rep, FL):
             good_s = bool(st) and {'eofbit', 'failbit'} <= {y.get('name') for y in walk(st[0]['rhs']) if y.get('k') == 'Ref'}
             ok = good_n and good_s
             why = 'shortened to m_fileSize - m_tellg: %s; eof|fail set: %s' % (good_n, good_s)
+    # ... on every way through read(): a return in front of the end handling (for instance "stopped, nothing is handed out") delivers a short
+    # count with the state still good - the signature search of the header decoder leaves an exhausted stream only through eof() and spins
+    rep.count('R2')
+    skipped = None
+    npaths = 0
+    for fn in rd:
+        for evs, out in FL.paths(fn, follow=(), unroll=1):
+            if out not in ('normal', 'return'):
+                continue
+            npaths += 1
+            seen = False
+            for e in evs:
+                if e['ev'] == 'branch' and any(a[1] == '>' and 'm_tellg' in a[0] and a[2] == 'm_fileSize' for a in _cmp_atoms(e['n'])):
+                    seen = True
+            if not seen:
+                skipped = evs
+                break
+    rep.ob('R2', 'read|end-handling-on-every-path', skipped is None and npaths > 0, rep.fn_site(rd[0]) if rd else None,
+           'UncompressedFile::read tests the declared end on each of its %d paths' % npaths if skipped is None and npaths > 0 else
+           'UncompressedFile::read can return without testing the declared end (%s): a short count with good() still true - the header '
+           'decoder\'s signature search never ends' % (fmt_events(skipped, limit=10) if skipped else 'no path'), nontrivial=True)
     rep.ob('R2', 'read|short-at-end', ok, rep.fn_site(rd[0]) if rd else None,
            'UncompressedFile::read beyond the declared end is shortened to m_fileSize - m_tellg and sets eofbit|failbit' if ok else
            'UncompressedFile::read at the declared end: ' + why, nontrivial=True)
@@ -2160,6 +2246,23 @@ def E4(F, rep):
                        nontrivial=True)
     if n == 0:
         raise AnalysisBroken('E4: UncompressedFile never sets m_rdstate')
+    # the compressed file is a std::fstream: the same holds for its state - nothing but open()/close() may clear() it.  The padding seek at the
+    # end of LogContainer::read comes between the short read and the good()-check that is meant to see it
+    ccls = 'Vector::BLF::CompressedFile'
+    rep.count('E4')
+    bad = []
+    nm = 0
+    for fn in methods_of(F, ccls):
+        if fn.get('kind') in ('ctor', 'dtor') or fn['simple'] in ('open', 'close'):
+            continue
+        nm += 1
+        for a in walk(fn['body'], into_lambda=False):
+            if a.get('k') == 'Call' and a.get('fn') in ('clear', 'setstate') and (member_path(a.get('obj')) or (None,))[-1] == 'm_file':
+                if a['fn'] == 'clear' or not any(x.get('name') in ('failbit', 'badbit', 'eofbit') for x in walk(a)):
+                    bad.append('%s calls m_file.%s() (line %s)' % (short(fn['name']), a['fn'], a.get('l')))
+    rep.ob('E4', 'CompressedFile|state-not-cleared', not bad and nm > 0, None,
+           'no operation of CompressedFile other than open()/close() clears the state of the underlying stream (%d methods)' % nm if not bad else
+           '%s: the eof|fail state a short read left is erased before File checks good() - a truncated container is accepted' % '; '.join(bad[:3]), nontrivial=True)
 
 
 def P5(F, rep, FL):
